@@ -12,7 +12,7 @@ E2_EQUIV = ["blake2b-ref-spec", "siphash-ref-spec"]
 TRUSTED = ["CBMC 6.11 + cvc5 1.0", "irsym LLVM-IR interpreter; BLAKE2b spec model validated against Python hashlib, SipHash against the paper's vector (development) and by structural agreement with the reference unit", "spec models in models/ (validated against FIPS/RFC vectors by bin/setup)",
            "composition: padding/chunking over an abstract compression function + compression function == spec => hash == spec"]
 ASSUMPTIONS = ["message lengths in the enumerated sets"]
-OUTSIDE = ["Poly1305 block arithmetic mod 2^130-5 (symbolic multiplication: no back end decides it; see DESIGN.md)", "poly1305_sse2.c",
+OUTSIDE = ["Poly1305 block multiplication (h + m) * r mod 2^130-5 (symbolic multiplication: no back end decides it; buffering, padding, clamping, final reduction and verify ARE covered)", "poly1305_sse2.c",
            "messages longer than the bounds / other split points", "SIMD BLAKE2b compression units vs the reference unit: under C10 (E2, thorough tier)"]
 
 
@@ -78,4 +78,24 @@ def obligations(tier):
                       stubs=HST, defs={"ALG": 256, "OUTLEN": ol, "PART": 2}, unwind=330, timeout=600, family="kdf-blake2b",
                       desc="crypto_kdf_derive_from_key == BLAKE2b(key, salt = LE64(id)||0, personal = ctx||0); lengths outside 16..64 refused",
                       bounds="all keys/ids/contexts; subkey length in {0,15,16,32,64,65}"))
+    # Poly1305 around its block function
+    plens = list(range(0, 50)) if tier == "thorough" else [0, 1, 15, 16, 17, 31, 32, 33, 49]
+    for L in plens:
+        sp = set([(0, 0), (L, 0), (0, L)])
+        for a_ in (1, 15, 16, 17):
+            for b_ in (0, 1, 15, 16, 17):
+                if a_ + b_ <= L:
+                    sp.add((a_, b_))
+        for a_, b_ in sorted(sp):
+            q = L in (0, 1, 16, 17, 33, 49) and (a_, b_) in ((0, 0), (1, 16), (15, 1), (16, 16), (17, 15), (L, 0))
+            if tier != "thorough" and not q:
+                continue
+            obs.append(Ob("poly1305-glue-len%d-a%d-b%d" % (L, a_, b_), "C04/poly1305_glue.c", units=["sodium/utils.c", "crypto_verify/verify.c"], stubs=["misuse.c", "libc.c", "x86_builtins.c"],
+                          defs={"PART": 0, "LEN": L, "SPLIT_A": a_, "SPLIT_B": b_}, unwind=24, timeout=600, nochecks=True,
+                          instrument=[["--replace-calls", "poly1305_blocks:cut_blocks"]], tier="quick" if q else "thorough", family="poly1305-buffering",
+                          desc="Poly1305 one-shot and 3-chunk streaming feed exactly the RFC 8439 block sequence (padding, final flag) into the (abstract) block function; same tag; verify exact; key clamping",
+                          bounds="all message/key/tag bytes; (len, split a, split b) enumerated"))
+    obs.append(Ob("poly1305-finish", "C04/poly1305_glue.c", units=["sodium/utils.c", "crypto_verify/verify.c"], stubs=["misuse.c", "libc.c", "x86_builtins.c"],
+                  defs={"PART": 1, "LEN": 1}, unwind=20, timeout=900, nochecks=True, family="poly1305-finish",
+                  desc="poly1305_finish == ((h mod 2^130-5) + pad) mod 2^128 for every partially reduced accumulator", bounds="limbs h0,h1,h2 < 2^46, pad 128 bits, all symbolic"))
     return obs
